@@ -212,13 +212,21 @@ def self_check(text_unsplit, segs_by_name, workdir, names, start_year=2000, unti
     for n in (names if max_zones is None else names[:max_zones]):
         with open(dest / n, "rb") as f:
             z = zoneinfo.ZoneInfo.from_file(f, key=n)
+        # When zic cannot express the zone's future as a POSIX TZ string (e.g. a rule day that spills into the next
+        # year) the unsplit file has an empty footer and zoneinfo simply keeps the last explicit type: beyond the last
+        # explicit transition of that file there is nothing to compare with.
+        usegs, ufooter = read_tzif(dest / n)
+        zi_limit = hi
+        if not ufooter:
+            explicit = [s0[0] for s0 in usegs if s0[0] is not None]
+            zi_limit = (max(explicit) if explicit else lo)
         segs = segs_by_name[n]
         pts = set(range(lo, hi, 86400 * 61 + 3600 * 7))
         for s in segs:
             if s[0] is not None and lo <= s[0] < hi:
                 pts.update((s[0] - 1, s[0], s[0] + 1))
         for t in sorted(pts):
-            if not (lo <= t < hi):
+            if not (lo <= t < hi) or t >= zi_limit:
                 continue
             u = dt.datetime.fromtimestamp(t, dt.timezone.utc)
             d = u.astimezone(z)
